@@ -370,9 +370,19 @@ def link(state, address: int) -> bytes:
     return b""
 
 
+# Files that include each other without '.once' would otherwise recurse until Python gives up
+MAX_INCLUDE_DEPTH = 32
+
+
 @metacommand(size=0)
 def include(state, included_file_path: str):
     include_path = devices.resolve_relative_path(included_file_path, state["filename"])
+
+    if state["include_depth"] >= MAX_INCLUDE_DEPTH:
+        reports.critical(
+            "recursive-include",
+            (state["insn"].ctx_start, state["insn"].ctx_end, f"Files are included more than {MAX_INCLUDE_DEPTH} levels deep. Does '{include_path}' include itself? A file that is included from several places can start with '.once'.")
+        )
 
     try:
         with open(include_path, "r") as f:
@@ -414,7 +424,7 @@ def include(state, included_file_path: str):
     from . import parser
     file_ast = parser.parse(include_path, code)
 
-    code = state["compiler"].compile_include(file_ast, state["emit_address"])
+    code = state["compiler"].compile_include(file_ast, state["emit_address"], state["include_depth"] + 1)
 
     return code
 
